@@ -29,6 +29,8 @@ type BOp struct {
 	Ctx int    `json:"ctx,omitempty"` // context id (0 = background)
 	N   int    `json:"n,omitempty"`   // batch size / range limit
 	M   string `json:"m,omitempty"`   // range callback behaviour: "" | "stop" | "panic"
+	// burst: N ms of put/get/commit on consumer C, GapUs apart, with Size observations; see the "sustain" profile
+	GapUs int `json:"gap_us,omitempty"`
 }
 
 type BCleaner struct {
@@ -49,6 +51,8 @@ type BScenario struct {
 }
 
 type bufExec struct {
+	execID   int
+	t0       time.Time
 	sc       *BScenario
 	r        *rec.Rec
 	b        *bigbuff.Buffer
@@ -151,8 +155,47 @@ func (l *loggingConsumer) Rollback() error {
 	return err
 }
 
+// slack of the bounded-delay check of the sustain profile: "cooldown plus scheduling latency", generously
+const sustainSlack = 400 * time.Millisecond
+
 func (x *bufExec) do(g string, op BOp) {
 	switch op.K {
+	case "burst":
+		// sustained traffic on a single consumer: state changes arrive faster than the cooldown for longer than
+		// cooldown + slack; Commit returns and Size calls carry timestamps (us since the start of the execution) and
+		// the number of values this consumer has committed, so that the trace spec can demand that what was committed
+		// more than cooldown + slack before a Size call has been reclaimed
+		c := x.con(op.C)
+		if c == nil {
+			return
+		}
+		us := func() int { return int(time.Since(x.t0) / time.Microsecond) }
+		bound := int((time.Duration(x.sc.Cleaner.CooldownUs)*time.Microsecond + sustainSlack) / time.Microsecond)
+		pos := 0
+		total := time.Duration(op.N) * time.Millisecond // the burst lasts op.N ms, with six Size observations
+		start, nextSize := time.Now(), total/6
+		for time.Since(start) < total {
+			x.do(g, BOp{K: "put", N: 1})
+			x.do(g, BOp{K: "get", C: op.C})
+			ctl.Gate("drv.call")
+			x.r.Call(g, "Commit", "c", op.C)
+			var err error
+			p := safeCall(func() { err = c.Commit() })
+			if err == nil && p == "" {
+				pos++
+			}
+			x.r.Ret(g, "Commit", "r", cls(err, p), "msg", msg(err, p), "ts", us(), "pos", pos, "exec", x.execID)
+			if time.Since(start) >= nextSize {
+				nextSize += total / 6
+				ctl.Gate("drv.call")
+				x.r.Call(g, "Size", "ts", us(), "bound_us", bound, "exec", x.execID)
+				n := x.b.Size()
+				x.r.Ret(g, "Size", "n", n)
+			}
+			for t := time.Now(); time.Since(t) < time.Duration(op.GapUs)*time.Microsecond; {
+				// busy wait: a sleeping driver would look like quiescence to the free-running detector
+			}
+		}
 	case "nop":
 		// only a scheduling point: lets the controller place the following call later relative to other goroutines
 		for i := 0; i <= op.N; i++ {
@@ -403,6 +446,16 @@ func (x *bufExec) quiescentEvent(phase int, timedOut bool) {
 }
 
 func genBufScenario(rng *rand.Rand, profile string, mode string) *BScenario {
+	if profile == "sustain" {
+		// C04, bounded delay under sustained traffic (free-running only): one consumer keeps up with one producer, the
+		// gaps are shorter than the cooldown, the burst lasts longer than cooldown + slack
+		cool := []int{2000, 5000, 20000}[rng.Intn(3)]
+		gap := []int{200, 400, 700}[rng.Intn(3)]
+		n := int((time.Duration(cool)*time.Microsecond + sustainSlack + 300*time.Millisecond) / time.Millisecond)
+		return &BScenario{Profile: profile, NCtx: 1, Cleaner: BCleaner{Kind: "default", CooldownUs: cool},
+			Setup:   []BOp{{K: "newc", C: 1}},
+			Drivers: [][]BOp{{{K: "burst", C: 1, N: n, GapUs: gap}}}}
+	}
 	sc := &BScenario{Profile: profile}
 	small := mode == "c"
 	nd := 2 + rng.Intn(2)
@@ -665,6 +718,7 @@ var bufDFS *sched.DFS // set while a scenario is being enumerated
 
 func runBufExec(execID int, sc *BScenario, mode string, seed int64, strategy string, replay []string, st *Stats, confirm bool) (evs []rec.Ev, res sched.Result, infra string) {
 	x := &bufExec{sc: sc, r: rec.New(), b: new(bigbuff.Buffer), cons: map[int]bigbuff.Consumer{}, reserved: map[int]bool{}, valSeq: map[string]int{}, st: st}
+	x.execID, x.t0 = execID, time.Now()
 	x.ctxs = make([]context.Context, sc.NCtx+1)
 	x.cancels = make([]context.CancelFunc, sc.NCtx+1)
 	for i := 1; i <= sc.NCtx; i++ {
